@@ -65,7 +65,11 @@ VDistinct(ev) == LET mem == ev[5][2][3] IN
   Ok(\A i, j \in DOMAIN mem : i # j => mem[i][1] # mem[j][1], "result-members-distinct")
 Raw(ev) == IF VQ(ev) # "ok" THEN VQ(ev) ELSE IF ev[5][1] = "v" THEN (IF VDistinct(ev) # "ok" THEN VDistinct(ev) ELSE VSeq(ev)) ELSE "ok"
 Verdict(ev) == IF ev[1] # "q" THEN "unknown-op"
-               ELSE IF Raw(ev) # "ok" /\ WidensBeyondChunk(ev) /\ (ev[5][1] = "v" \/ ev[5][2] = "NullSequenceException")
+               \* the known finding is about the RANGE of such an answer (bounds widened past the chunk, sequences that can
+               \* no longer be restricted, or NullSequenceException): wrong members are never filed under it
+               ELSE IF Raw(ev) \in {"guids:bounds", "interval-guids:bounds", "identifiers:bounds", "guids:returns",
+                                    "interval-guids:returns", "identifiers:returns", "member-sequence-is-source-restricted"}
+                       /\ WidensBeyondChunk(ev) /\ (ev[5][1] = "v" \/ ev[5][2] = "NullSequenceException")
                     THEN "id-query:widens-beyond-sequence-chunk" ELSE Raw(ev)
 Bad == {i \in DOMAIN Trace : Verdict(Trace[i]) # "ok"}
 ASSUME \A i \in Bad : PrintT(<<"BAD", i, Verdict(Trace[i])>>)
